@@ -318,7 +318,7 @@ class Unit:
             body, n = re.subn(pat, rep, body)
             if n == 0:
                 raise CutError(f'{relpath}: fn {key}: rewrite /{pat}/ no longer matches')
-            self.drop(f'fn {key}: /{pat}/ -> {rep!r}', n)
+            self.drop(f'fn {key}: /{pat}/ -> ' + (repr(rep) if isinstance(rep, str) else (rep.__doc__ or '<computed>')), n)
         for pat, rep in opt_rewrites:
             body, n = re.subn(pat, rep, body)
             self.drop(f'fn {key}: /{pat}/ -> ' + (repr(rep) if isinstance(rep, str) else '<computed>'), n)
